@@ -288,7 +288,7 @@ def main(checks):
 
 class Job:
     def __init__(self, name, src, flags=(), defines=(), argv=(), timeout=900, env=None, expect_compile=True,
-                 key_prefix=None, runner=None):
+                 key_prefix=None, runner=None, distinct=True):
         self.name = name
         self.src = src
         self.flags = list(flags)
@@ -305,6 +305,7 @@ class Job:
         self.stats = {}
         self.key_prefix = key_prefix or name
         self.runner = list(runner or [])   # e.g. ["valgrind", "-q", ...]
+        self.distinct = distinct           # False: a re-run of cases another job already counts as distinct
 
     def replay_base(self):
         return {"job": self.name, "src": os.path.relpath(self.src, VERIF), "flags": self.flags,
@@ -354,7 +355,10 @@ def build_and_run(ctx, jobs, merge_into=None, compile_fail_is_violation=True):
     total = merge_into if merge_into is not None else {}
     for j in runnable:
         j.stats = ctx.harvest(j.stdout, j.replay_base())
-        merge_stats(total, j.stats)
+        st = dict(j.stats)
+        if not j.distinct:
+            st["distinct_nontrivial"] = 0
+        merge_stats(total, st)
         if j.rc == -999:
             rb = j.replay_base()
             ctx.violation("timeout:" + j.key_prefix, "harness did not finish within %ss" % j.timeout, rb)
